@@ -245,14 +245,15 @@ def execute(record):
             outer_inner = model._compute_grads   # the (outermost) decorator's intercept_grads
 
             def outer_cg(Xb, y_pred, gradient):
-                ids = list(h.cur_ids)
+                _, Ab_now, ids_now = h.resolve(Xb)
+                ids = list(ids_now)
                 if any(i < 0 for i in ids):
                     res.probe("batches_with_undecidable_duplicates")     # identical rows, batch not a slice of the permutation
                     return outer_inner(Xb, y_pred, gradient)
                 rec_idx = getattr(model._batchify, "indices", None)
                 if rec_idx is None or list(rec_idx) != ids:
                     res.violate("C14:indices", {"recorded": None if rec_idx is None else [int(v) for v in rec_idx], "true": ids})
-                Ab = h.cur_batch[1]
+                Ab = Ab_now
                 P = np.array(y_pred, copy=True)
                 _, G_pure = h.sim_gemini.real.evaluate(P.copy(), Ab, return_grad=True)
                 G_pure = np.array(G_pure, copy=True)
